@@ -13,7 +13,7 @@ from ..execu import run
 from ..runner import short
 
 ID = "C11"
-N = {"quick": 8000, "thorough": 250000}
+N = {"quick": 40000, "thorough": 250000}
 TIME_BUDGET = {"quick": 45, "thorough": 480}
 MIN_NONTRIVIAL = {"quick": 300, "thorough": 3000}
 RULE = ("cases = a container or data-class type (List/Set/FrozenSet/Deque/Tuple[T,...]/Tuple[T1,T2]/Dict[K,V] over element types int, "
